@@ -1029,7 +1029,8 @@ class AnsiString:
 
         if isinstance(value, AnsiString):
             incoming_str = value._s
-            incoming_fmts = value._fmts
+            # Work on copies of the marker lists: value must not change, and value may be self
+            incoming_fmts = [(key, list(point.add), list(point.rem)) for key, point in sorted(value._fmts.items())]
         else:
             raise TypeError(f'value is invalid type: {type(value)}')
 
@@ -1037,32 +1038,32 @@ class AnsiString:
         self._s += incoming_str
         find_settings = []
         replace_settings = []
-        for key, settings in sorted(incoming_fmts.items()):
+        for key, settings_add, settings_rem in incoming_fmts:
             key += shift
             if key in self._fmts:
                 if (
                     key == shift
-                    and settings.add
-                    and self._fmts[key].rem[:len(settings.add)] == settings.add
+                    and settings_add
+                    and self._fmts[key].rem[:len(settings_add)] == settings_add
                 ):
                     # Special case - the string being added contains same formatting as end of my string.
                     # Because the settings work based on references instead of values, the settings not only
                     # need to be removed here but changed where they are removed in the added string.
-                    find_settings = settings.add
-                    replace_settings = self._fmts[key].rem[:len(settings.add)]
-                    self._fmts[key].rem = self._fmts[key].rem[len(settings.add):]
-                    settings.add = []
-                    if not self._fmts[key] and not settings:
+                    find_settings = settings_add
+                    replace_settings = self._fmts[key].rem[:len(settings_add)]
+                    self._fmts[key].rem = self._fmts[key].rem[len(settings_add):]
+                    settings_add = []
+                    if not self._fmts[key] and not settings_rem:
                         del self._fmts[key]
                         continue
 
-                self._fmts[key].add.extend(settings.add)
-                self._fmts[key].rem.extend(settings.rem)
+                self._fmts[key].add.extend(settings_add)
+                self._fmts[key].rem.extend(settings_rem)
 
             else:
-                self._fmts[key] = _AnsiSettingPoint(list(settings.add), list(settings.rem))
+                self._fmts[key] = _AnsiSettingPoint(list(settings_add), list(settings_rem))
 
-                finds = __class__._find_settings_references(find_settings, settings.rem)
+                finds = __class__._find_settings_references(find_settings, settings_rem)
                 if finds:
                     for find_idx, add_idx in reversed(finds):
                         self._fmts[key].rem[add_idx] = replace_settings[find_idx]
